@@ -638,10 +638,14 @@ def gen_call(rng, params, opts, near_miss=0.15):
     if vk and rng.random() < 0.6:
         for k in rng.sample(["m", "n", "Kx", "_u", "zz"], rng.randint(1, 2)):
             kwargs.append([k, gen_value(rng, vk.get("ann"))])
-        if rng.random() < 0.2:
-            po = [p for p in params if p["kind"] == "po"]
-            if po:
-                kwargs.append([po[0]["name"], gen_value(rng, vk.get("ann"))])
+        if rng.random() < 0.3:
+            # keys that look like parameters but are ordinary extra keys for Python: a positional-only name, or a
+            # different-case spelling of a case-sensitive / positional-only name
+            cand = [p["name"] for p in params if p["kind"] == "po"]
+            cand += [p["name"].upper() for p in params if p["kind"] in ("po", "pk", "ko") and not is_private(p["name"])
+                     and (p["kind"] == "po" or not is_ci(p, opts))]
+            if cand:
+                kwargs.append([rng.choice(cand), gen_value(rng, vk.get("ann"))])
     elif miss and rng.random() < 0.3:
         kwargs.append(["zz", 1])
     if miss and rng.random() < 0.3 and pos[:npos]:
